@@ -189,6 +189,8 @@ def rerun_groups(results, max_per_tree=40, rng=None):
             after = [c for c in sched[idx[-1] + 1:] if c[0] == "rep"]
             if not after or any(c[4] != "succeeded" for c in after):
                 continue
+            if any(c[0] == "req" for c in sched[idx[-1] + 1:]):
+                continue            # a cancel / pause requested after the rerun: the convergence claim does not apply
             last = {}
             multi = False
             for c in sched:
